@@ -35,14 +35,15 @@ def install_contract(ctx):
     real = Residue.__dict__['distance_to']
     _real['distance_to'] = real
 
-    def distance_to(self, residue, box_vects=None, inv=False):
+    def distance_to(self, *args, **kwargs):
+        residue, box_vects, inv = bus.seen(('residue', 'box_vects', 'inv'), args, kwargs, {'inv': False})
         try:
             a = np.array(self.geometric_center, float)
             b = np.array(residue.geometric_center if isinstance(residue, Residue) else residue, float)
             box_before = None if box_vects is None else np.array(box_vects, float, copy=True)
         except Exception:  # noqa
             a = b = box_before = None
-        value = real(self, residue, box_vects, inv)
+        value = real(self, *args, **kwargs)
         try:
             if box_before is not None and a is not None and box_before.shape == (3, 3):
                 box = np.linalg.inv(box_before) if inv else box_before
